@@ -315,6 +315,7 @@ void checkOracles(const Desc& d, const Obs& o, RunResult& r) {
         if (o.ev[i].type == E_TESTS_END && !repsSeen.empty()) repsSeen.back().end = i;
     }
     if ((int)repsSeen.size() != reps) r.fail("C01", "repetitions", sfmt("expected %d repetitions, observed %zu", reps, repsSeen.size()));
+    if ((int)repsSeen.size() < reps && nSel > 0) r.fail("C02", "exactly_once", sigOf("what", "a repetition did not run at all"), sfmt("%zu tests are selected; %d repetitions asked for, %zu took place", nSel, reps, repsSeen.size()));
     if (o.sums.size() != repsSeen.size()) r.fail("C01", "repetitions", "summary records do not match repetitions");
 
     ModelState ms; ms.pluginCalls.assign(pluginGroups.size(), 0); ms.reallocFaultUnused = &o.reallocFaultUnused;
